@@ -1167,4 +1167,472 @@ theorem midK_spec {α : Type} (fs : U256) (ind : Int32) (kMid kNot : Except Stri
   · rw [if_neg hr, decide_eq_false (fun h => hr (hmid.1 h)), if_neg (by decide)]
 
 
+/-! ### model side: the magnitude of the rounded integer -/
+
+/-- the magnitude of `roundToInt` -/
+def magOf (mode : Mode) (s : Bool) (c : Nat) (e : Int) : Nat :=
+  if e ≥ 0 then c * 10 ^ e.toNat
+  else roundInt mode s (c / 10 ^ (-e).toNat) (c % 10 ^ (-e).toNat) (10 ^ (-e).toNat)
+
+/-- was the datum already an integer? -/
+def exactOf (c : Nat) (e : Int) : Bool := if e ≥ 0 then true else c % 10 ^ (-e).toNat == 0
+
+theorem roundToInt_eq (mode : Mode) (s : Bool) (c : Nat) (e : Int) :
+    roundToInt mode s c e = (sInt s (magOf mode s c e), exactOf c e) := by
+  unfold roundToInt magOf exactOf
+  split <;> rfl
+
+/-- `toIntD` on a finite datum, for the 32-bit signed type: in range iff the magnitude is below `2^31` (`2^31 + 1` for a
+negative number) -/
+theorem toIntD_fin (mode : Mode) (xf s : Bool) (c : Nat) (e : Int) :
+    toIntD mode xf (-2147483648) 2147483647 (-2147483648) (.fin s c e) =
+      if magOf mode s c e < (if s then 2147483649 else 2147483648) then
+        (sInt s (magOf mode s c e), if xf && !exactOf c e then fInexact else 0)
+      else (-2147483648, fInvalid) := by
+  simp only [toIntD, roundToInt_eq]
+  generalize magOf mode s c e = m
+  cases s
+  · simp only [sInt, Bool.false_eq_true, if_false]
+    by_cases h : m < 2147483648
+    · rw [if_pos h, if_pos (by omega)]
+    · rw [if_neg h, if_neg (by omega)]
+  · simp only [sInt, if_true]
+    by_cases h : m < 2147483649
+    · rw [if_pos h, if_pos (by omega)]
+    · rw [if_neg h, if_neg (by omega)]
+
+theorem magOf_zero (mode : Mode) (s : Bool) (e : Int) : magOf mode s 0 e = 0 := by
+  unfold magOf
+  split
+  · rw [Nat.zero_mul]
+  · simp [roundInt, roundUp]
+
+theorem exactOf_zero (e : Int) : exactOf 0 e = true := by
+  unfold exactOf; split <;> simp
+
+
+theorem roundInt_ge (mode : Mode) (s : Bool) (a r D : Nat) : a ≤ roundInt mode s a r D := by
+  unfold roundInt; split <;> omega
+
+theorem roundInt_le (mode : Mode) (s : Bool) (a r D : Nat) : roundInt mode s a r D ≤ a + 1 := by
+  unfold roundInt; split <;> omega
+
+theorem roundInt_exact (mode : Mode) (s : Bool) (a D : Nat) : roundInt mode s a 0 D = a := by
+  simp [roundInt, roundUp]
+
+theorem pow10_split (a b : Nat) (h : b ≤ a) : 10 ^ a = 10 ^ (a - b) * 10 ^ b := by
+  rw [← Nat.pow_add]; congr 1; omega
+
+/-- more than 10 integer digits: the rounded magnitude is at least `10^10`, whatever the direction -/
+theorem magOf_big (mode : Mode) (s : Bool) (c : Nat) (e : Int) (hc : 0 < c) (h : 11 ≤ (ndigits c : Int) + e) :
+    10 ^ 10 ≤ magOf mode s c e := by
+  obtain ⟨hlo, -⟩ := ndigits_spec hc
+  unfold magOf
+  by_cases he : e ≥ 0
+  · rw [if_pos he]
+    have : 10 ^ 10 ≤ 10 ^ (ndigits c - 1 + e.toNat) := Nat.pow_le_pow_right (by decide) (by omega)
+    calc 10 ^ 10 ≤ 10 ^ (ndigits c - 1 + e.toNat) := this
+      _ = 10 ^ (ndigits c - 1) * 10 ^ e.toNat := Nat.pow_add ..
+      _ ≤ c * 10 ^ e.toNat := Nat.mul_le_mul_right _ hlo
+  · rw [if_neg he]
+    refine Nat.le_trans ?_ (roundInt_ge ..)
+    rw [Nat.le_div_iff_mul_le (Nat.pow_pos (by decide)), ← Nat.pow_add]
+    exact Nat.le_trans (Nat.pow_le_pow_right (by decide) (by omega)) hlo
+
+/-- at most 9 integer digits: the rounded magnitude is at most `10^9` -/
+theorem magOf_small (mode : Mode) (s : Bool) (c : Nat) (e : Int) (hc : 0 < c) (h : (ndigits c : Int) + e ≤ 9) :
+    magOf mode s c e ≤ 10 ^ 9 := by
+  obtain ⟨-, hhi⟩ := ndigits_spec hc
+  unfold magOf
+  by_cases he : e ≥ 0
+  · rw [if_pos he]
+    have : c * 10 ^ e.toNat < 10 ^ ndigits c * 10 ^ e.toNat := Nat.mul_lt_mul_of_pos_right hhi (Nat.pow_pos (by decide))
+    rw [← Nat.pow_add] at this
+    exact Nat.le_of_lt (Nat.lt_of_lt_of_le this (Nat.pow_le_pow_right (by decide) (by omega)))
+  · rw [if_neg he]
+    refine Nat.le_trans (roundInt_le ..) ?_
+    have : c / 10 ^ (-e).toNat < 10 ^ 9 := by
+      rw [Nat.div_lt_iff_lt_mul (Nat.pow_pos (by decide)), ← Nat.pow_add]
+      exact Nat.lt_of_lt_of_le hhi (Nat.pow_le_pow_right (by decide) (by omega))
+    omega
+
+/-- no integer digit: the quotient is 0 and the whole coefficient is discarded -/
+theorem tiny (c : Nat) (e : Int) (hc : 0 < c) (h : (ndigits c : Int) + e ≤ 0) :
+    e < 0 ∧ c / 10 ^ (-e).toNat = 0 ∧ c % 10 ^ (-e).toNat = c := by
+  obtain ⟨-, hhi⟩ := ndigits_spec hc
+  have hn := ndigits_pos hc
+  have hlt : c < 10 ^ (-e).toNat := Nat.lt_of_lt_of_le hhi (Nat.pow_le_pow_right (by decide) (by omega))
+  exact ⟨by omega, Nat.div_eq_of_lt hlt, Nat.mod_eq_of_lt hlt⟩
+
+
+/-! ### the signed result -/
+
+theorem i64_of_nat (m : Nat) (h : m < 2^63) : (Int64.ofInt (m : Int)).toInt = m :=
+  Int64.toInt_ofInt_of_le (by omega) (by omega)
+
+/-- the sign word is non-zero exactly for a negative operand -/
+theorem sign_word (w : UInt64) : (w &&& c_MASK_SIGN != 0) = negW w.toNat := by
+  have h := Dec.C03GenCompare.toNat_and_field w c_MASK_SIGN 1 63 (by decide)
+  unfold negW
+  rw [Bool.eq_iff_iff, bne_iff_ne, ne_eq, ← UInt64.toNat_inj, h, decide_eq_true_iff, UInt64.toNat_zero]
+  omega
+
+/-- the final conversion: a magnitude below `2^63` with the sign of the operand -/
+theorem resOf_spec (xs w : UInt64) (s : Bool) (m : Nat) (hs : (xs != 0) = s) (hw : w.toNat = m) (hm : m < 2^63) :
+    resOf xs w = Int32.ofInt (sInt s m) := by
+  unfold resOf
+  rw [hs]
+  have e1 : toI w = (m : Int) := by show (w.toNat : Int) = m; rw [hw]
+  rw [e1]
+  cases s
+  · simp only [Bool.false_eq_true, if_false, sInt]
+    show Int32.ofInt (Int64.ofInt (m : Int)).toInt = _
+    rw [i64_of_nat m hm]
+  · simp only [if_true, sInt]
+    show Int32.ofInt (-Int64.ofInt (m : Int)).toInt = _
+    rw [Int64.toInt_neg, i64_of_nat m hm, Int.bmod_eq_of_le (by omega) (by omega)]
+
+
+open Dec.C03GenCompare (tbl64_ten) in
+/-- the result for a positive exponent: `±C·10^g`, computed without wrap-around -/
+theorem posExpK_spec {α : Type} (xs : UInt64) (C1 : U128) (exp : Int32) (k : Int32 → Except String α) (s : Bool) (g : Nat)
+    (hs : (xs != 0) = s) (hg : exp.toInt = g) (h19 : g ≤ 19) (h0 : 0 < C1.w0.toNat) (hm : C1.w0.toNat * 10 ^ g < 2^63) :
+    posExpK xs C1 exp k = k (Int32.ofInt (sInt s (C1.w0.toNat * 10 ^ g))) := by
+  have hk := idx_of_i32 _ _ hg
+  obtain ⟨t, ht, tv⟩ := tbl64_ten (UInt64.ofInt (toI exp)) (by omega)
+  rw [hk] at tv
+  have hp : 0 < 10 ^ g := Nat.pow_pos (by decide)
+  have hC : C1.w0.toNat < 2^63 := Nat.lt_of_le_of_lt (Nat.le_mul_of_pos_right _ hp) hm
+  have hT : 10 ^ g < 2^63 := Nat.lt_of_le_of_lt (Nat.le_mul_of_pos_left _ h0) hm
+  unfold posExpK
+  rw [hs]
+  cases s
+  · simp only [Bool.false_eq_true, if_false, bind, Except.bind, pure, Except.pure, ht, sInt]
+    congr 2
+    show (Int64.ofInt ((C1.w0 * t).toNat : Int)).toInt = _
+    rw [UInt64.toNat_mul, tv, Nat.mod_eq_of_lt (by omega), i64_of_nat _ hm]
+  · simp only [if_true, bind, Except.bind, pure, Except.pure, ht, sInt]
+    congr 2
+    show ((-Int64.ofInt (C1.w0.toNat : Int)) * Int64.ofInt (t.toNat : Int)).toInt = _
+    rw [Int64.toInt_mul, Int64.toInt_neg, i64_of_nat _ hC, tv, i64_of_nat _ hT,
+      Int.bmod_eq_of_le (n := -(C1.w0.toNat : Int)) (by omega) (by omega)]
+    have : (-(C1.w0.toNat : Int)) * ((10 ^ g : Nat) : Int) = -((C1.w0.toNat * 10 ^ g : Nat) : Int) := by
+      push_cast; ring
+    rw [this, Int.bmod_eq_of_le (by omega) (by omega)]
+
+
+/-! ### rounding directions on the magnitude, and the boundary test at ten integer digits -/
+
+/-- how the magnitude is rounded: toward zero, away from zero, to nearest (ties to even / ties away) -/
+inductive Dir | down | up | even | away
+  deriving DecidableEq
+
+def dirOf : Mode → Bool → Dir
+  | .rtz, _ => .down
+  | .rdn, s => if s then .up else .down
+  | .rup, s => if s then .down else .up
+  | .rne, _ => .even
+  | .rna, _ => .away
+
+/-- does the magnitude `a + r/D` go up to `a + 1`? -/
+def incr (d : Dir) (aOdd : Bool) (r D : Nat) : Bool :=
+  if r = 0 then false else
+  match d with
+  | .down => false
+  | .up => true
+  | .even => decide (2*r > D) || (decide (2*r = D) && aOdd)
+  | .away => decide (2*r ≥ D)
+
+theorem roundUp_eq (mode : Mode) (s aOdd : Bool) (r D : Nat) : roundUp mode s aOdd r D = incr (dirOf mode s) aOdd r D := by
+  unfold roundUp incr dirOf
+  cases mode <;> cases s <;> rfl
+
+theorem roundInt_eq (mode : Mode) (s : Bool) (a r D : Nat) :
+    roundInt mode s a r D = if incr (dirOf mode s) (a % 2 == 1) r D then a + 1 else a := by
+  unfold roundInt; rw [roundUp_eq]
+
+/-- the constant `c = 5·(2B − θ)` and the strictness a copy must use at ten integer digits for the rounding direction `d`,
+`B` being the smallest magnitude out of range -/
+def thrOK (d : Dir) (B c : Nat) (strict : Bool) : Prop :=
+  match d with
+  | .down => c = 10 * B ∧ strict = false
+  | .up => c = 10 * B - 10 ∧ strict = true
+  | .away => c = 10 * B - 5 ∧ strict = false
+  | .even => c = 10 * B - 5 ∧ strict = decide (B % 2 = 1)
+
+instance (d : Dir) (B c : Nat) (strict : Bool) : Decidable (thrOK d B c strict) := by
+  unfold thrOK; cases d <;> infer_instance
+
+/-- the boundary comparison when the quotient is just below the bound: the discarded part decides -/
+theorem thr_mid (d : Dir) (B c : Nat) (strict : Bool) (hB : B = 2147483648 ∨ B = 2147483649) (ok : thrOK d B c strict)
+    (r D' : Nat) (hD' : 0 < D') (hr : r < 10 * D') :
+    cmpN strict ((B - 1) * (10 * D') + r) (c * D') = incr d ((B - 1) % 2 == 1) r (10 * D') := by
+  unfold cmpN incr
+  rcases hB with rfl | rfl <;> cases d <;> simp only [thrOK] at ok <;> obtain ⟨rfl, rfl⟩ := ok
+  all_goals (by_cases h0 : r = 0)
+  all_goals simp only [h0, if_true, if_false, Bool.false_eq_true, Nat.reduceMod, Nat.reduceSub, Nat.reduceMul, Nat.reduceBEq,
+    decide_true, decide_false, Bool.and_true, Bool.and_false, Bool.or_false, Nat.add_zero, Nat.reduceEqDiff]
+  all_goals rw [Bool.eq_iff_iff]
+  all_goals simp only [decide_eq_true_eq, Bool.false_eq_true, Bool.or_eq_true, iff_false, iff_true, not_lt, not_le]
+  all_goals omega
+
+
+theorem thrOK_c (d : Dir) (B c : Nat) (strict : Bool) (ok : thrOK d B c strict) (hB : 2 ≤ B) :
+    10 * B - 10 ≤ c ∧ c ≤ 10 * B ∧ (strict = true → c < 10 * B) := by
+  cases d <;> simp only [thrOK] at ok <;> obtain ⟨rfl, hs⟩ := ok <;> refine ⟨by omega, by omega, ?_⟩ <;> intro h <;>
+    first | omega | (rw [hs] at h; exact absurd h (by decide))
+
+/-- the boundary comparison on `C = a·D + r`, `D = 10·D'`: `C ⋈ c·D'` says whether the rounded magnitude reaches `B` -/
+theorem thr_div (d : Dir) (B c : Nat) (strict : Bool) (hB : B = 2147483648 ∨ B = 2147483649) (ok : thrOK d B c strict)
+    (a r D' : Nat) (hD' : 0 < D') (hr : r < 10 * D') :
+    cmpN strict (a * (10 * D') + r) (c * D') = decide (B ≤ if incr d (a % 2 == 1) r (10 * D') then a + 1 else a) := by
+  obtain ⟨c1, c2, c3⟩ := thrOK_c d B c strict ok (by omega)
+  rcases Nat.lt_trichotomy (a + 1) B with hlt | heq | hgt
+  · -- a ≤ B − 2: far below
+    have h1 : (a + 2) * (10 * D') ≤ B * (10 * D') := Nat.mul_le_mul_right _ (by omega)
+    have h2 : (10 * B - 10) * D' ≤ c * D' := Nat.mul_le_mul_right _ c1
+    have hR : ¬ B ≤ (if incr d (a % 2 == 1) r (10 * D') then a + 1 else a) := by split <;> omega
+    rw [decide_eq_false hR]
+    have e1 : B * (10 * D') = (10 * B - 10) * D' + 10 * D' := by
+      rw [← Nat.mul_assoc, Nat.mul_comm B 10, ← Nat.add_mul]; congr 1; omega
+    rw [Nat.add_mul, e1] at h1
+    unfold cmpN
+    generalize a * (10 * D') = X at *
+    generalize (10 * B - 10) * D' = Y at *
+    generalize c * D' = Z at *
+    cases strict <;> simp only [Bool.false_eq_true, if_true, if_false, decide_eq_false_iff_not] <;> (try omega)
+  · have ha : a = B - 1 := by omega
+    subst ha
+    rw [thr_mid d B c strict hB ok r D' hD' hr, show B - 1 + 1 = B by omega]
+    cases incr d ((B - 1) % 2 == 1) r (10 * D')
+    · simp only [Bool.false_eq_true, if_false]; symm; rw [decide_eq_false_iff_not]; omega
+    · simp only [if_true]; symm; rw [decide_eq_true_eq]
+  · -- a ≥ B
+    have h1 : B * (10 * D') ≤ a * (10 * D') := Nat.mul_le_mul_right _ (by omega)
+    have h2 : c * D' ≤ (10 * B) * D' := Nat.mul_le_mul_right _ c2
+    have hR : B ≤ (if incr d (a % 2 == 1) r (10 * D') then a + 1 else a) := by split <;> omega
+    rw [decide_eq_true hR]
+    have e1 : B * (10 * D') = (10 * B) * D' := by rw [← Nat.mul_assoc, Nat.mul_comm B 10]
+    rw [e1] at h1
+    unfold cmpN
+    cases strict
+    · simp only [Bool.false_eq_true, if_false, decide_eq_true_eq]
+      generalize a * (10 * D') = X at *; generalize (10 * B) * D' = Y at *; generalize c * D' = Z at *
+      omega
+    · have h3 : c * D' < (10 * B) * D' := Nat.mul_lt_mul_of_pos_right (c3 rfl) hD'
+      simp only [if_true, decide_eq_true_eq]
+      generalize a * (10 * D') = X at *; generalize (10 * B) * D' = Y at *; generalize c * D' = Z at *
+      omega
+
+
+/-- the boundary comparison on an integer magnitude `m`: `10·m ⋈ c` says whether `m` reaches `B` -/
+theorem thr_int (d : Dir) (B c : Nat) (strict : Bool) (hB : B = 2147483648 ∨ B = 2147483649) (ok : thrOK d B c strict)
+    (m : Nat) : cmpN strict (10 * m) c = decide (B ≤ m) := by
+  unfold cmpN
+  rcases hB with rfl | rfl <;> cases d <;> simp only [thrOK] at ok <;> obtain ⟨rfl, rfl⟩ := ok <;>
+    simp only [Bool.false_eq_true, if_true, if_false, Nat.reduceMod, Nat.reduceEqDiff, decide_true, decide_false] <;>
+    rw [decide_eq_decide] <;> omega
+
+/-- **the range test at ten integer digits is right**: for the rounding direction of the copy, the comparison of
+`C·10^(11−n)` with the copy's constant says whether the rounded magnitude reaches the bound `B` -/
+theorem range10 (mode : Mode) (s : Bool) (B c : Nat) (strict : Bool) (hB : B = 2147483648 ∨ B = 2147483649)
+    (ok : thrOK (dirOf mode s) B c strict) (C : Nat) (e : Int) (hC : 0 < C) (ht : (ndigits C : Int) + e = 10) :
+    cmpN strict (C * 10 ^ (11 - ndigits C)) (c * 10 ^ (ndigits C - 11)) = decide (B ≤ magOf mode s C e) := by
+  have hn := ndigits_pos hC
+  unfold magOf
+  by_cases he : e ≥ 0
+  · rw [if_pos he, show ndigits C - 11 = 0 by omega, Nat.pow_zero, Nat.mul_one,
+      show 11 - ndigits C = e.toNat + 1 by omega, Nat.pow_succ, ← Nat.mul_assoc, Nat.mul_comm _ 10]
+    exact thr_int _ B c strict hB ok _
+  · rw [if_neg he, show 11 - ndigits C = 0 by omega, Nat.pow_zero, Nat.mul_one, roundInt_eq]
+    have hx : (-e).toNat = (ndigits C - 11) + 1 := by omega
+    rw [hx, Nat.pow_succ, Nat.mul_comm _ 10]
+    have hD' : 0 < 10 ^ (ndigits C - 11) := Nat.pow_pos (by decide)
+    have := thr_div (dirOf mode s) B c strict hB ok (C / (10 * 10 ^ (ndigits C - 11))) (C % (10 * 10 ^ (ndigits C - 11)))
+      (10 ^ (ndigits C - 11)) hD' (Nat.mod_lt _ (by omega))
+    rw [Nat.mul_comm (C / _), Nat.div_add_mod] at this
+    exact this
+
+
+/-! ### the routines: common set-up -/
+
+/-- the smallest magnitude out of the `i32` range, by sign -/
+def bnd (s : Bool) : Nat := if s then 2147483649 else 2147483648
+
+/-- a copy's range-test parameters are right for rounding mode `mode` -/
+def RangeOK (P : RangeP) (mode : Mode) : Prop :=
+  thrOK (dirOf mode true) (bnd true) P.cN.toNat P.sN ∧ thrOK (dirOf mode false) (bnd false) P.cP.toNat P.sP
+
+instance (P : RangeP) (mode : Mode) : Decidable (RangeOK P mode) := by unfold RangeOK; infer_instance
+
+/-- **range test, semantically**: the copy answers `inv` exactly when the rounded integer is out of range -/
+theorem rangeK_sem {α : Type} (P : RangeP) (mode : Mode) (hP : RangeOK P mode) (xs : UInt64) (C1 : U128) (q exp : Int32)
+    (inv k : Except String α) (s : Bool) (e : Int) (hs : (xs != 0) = s) (hC0 : 0 < val128 C1) (hC : val128 C1 < P34)
+    (hq : q.toInt = (ndigits (val128 C1) : Int)) (he : exp.toInt = e) (he1 : -10000 ≤ e) (he2 : e ≤ 10000) :
+    rangeK P xs C1 q exp inv k = if bnd s ≤ magOf mode s (val128 C1) e then inv else k := by
+  obtain ⟨hN, hPp⟩ := hP
+  have hn := ndigits_pos hC0
+  obtain ⟨-, hhi⟩ := ndigits_spec hC0
+  have hn34 : ndigits (val128 C1) ≤ 34 := by rw [ndigits_le_iff hC0]; simpa [P34] using hC
+  have hcN : P.cN.toNat < 2^36 := by
+    have := (thrOK_c _ _ _ _ hN (by decide)).2.1; simp only [bnd, if_true] at this; omega
+  have hcP : P.cP.toNat < 2^36 := by
+    have := (thrOK_c _ _ _ _ hPp (by decide)).2.1; simp only [bnd] at this; simp at this; omega
+  rw [rangeK_spec P xs C1 q exp inv k _ e hq he hn hn34 hhi he1 he2 hcN hcP]
+  by_cases c1 : 10 < (ndigits (val128 C1) : Int) + e
+  · have := magOf_big mode s (val128 C1) e hC0 (by omega)
+    rw [if_pos c1, if_pos (by unfold bnd; split <;> omega)]
+  rw [if_neg c1]
+  by_cases c2 : (ndigits (val128 C1) : Int) + e = 10
+  · rw [if_pos c2]
+    have hxs : (xs ≠ 0) ↔ s = true := by rw [← hs, bne_iff_ne]
+    cases s
+    · rw [if_neg (by rw [hxs]; decide), range10 mode false (bnd false) _ _ (Or.inl rfl) hPp _ e hC0 c2]
+      simp only [decide_eq_true_eq]
+    · rw [if_pos (by rw [hxs]), range10 mode true (bnd true) _ _ (Or.inr rfl) hN _ e hC0 c2]
+      simp only [decide_eq_true_eq]
+  · rw [if_neg c2]
+    have := magOf_small mode s (val128 C1) e hC0 (by omega)
+    rw [if_neg (by unfold bnd; split <;> omega)]
+
+
+/-- the skeleton of the truncating / floor / ceiling conversions: the parts that differ are the range constants `P`, the
+answer `small` for operands below one, and the treatment `rem` of the quotient and fraction after digit removal -/
+def skelTFC (P : RangeP) (f : UInt32) (small : UInt64 → Except String (Int32 × UInt32))
+    (rem : UInt64 → U128 → U256 → Int32 → Except String (Int32 × UInt32)) (x : U128) : Except String (Int32 × UInt32) :=
+  frontK x (INV f) (.ok (0, f)) (fun x_sign C1 q exp =>
+    rangeK P x_sign C1 q exp (INV f)
+      (if decide (q + exp ≤ (0 : Int32)) then small x_sign
+       else if decide (exp < (0 : Int32)) then removeK C1 (-exp) (fun Cstar fstar => rem x_sign Cstar fstar (-exp))
+       else if (exp == (0 : Int32)) then fin32 f (resOf x_sign C1.w0)
+       else posExpK x_sign C1 exp (fin32 f)))
+
+/-- what the specification says the routine for `mode` / `xf` returns on `x` with incoming status word `f` -/
+def specOut (mode : Mode) (xf : Bool) (x : U128) (f : UInt32) : Except String (Int32 × UInt32) :=
+  .ok (Int32.ofInt (toIntD mode xf (-2147483648) 2147483647 (-2147483648) (decode (Dec.C03GenCompare.bitsOf x))).1,
+    f ||| UInt32.ofNat (toIntD mode xf (-2147483648) 2147483647 (-2147483648) (decode (Dec.C03GenCompare.bitsOf x))).2)
+
+/-- the inexact flag word: raised by the `x` variants when the discarded part is non-zero -/
+def ixFlag (xf : Bool) (exact : Bool) : UInt32 := UInt32.ofNat (if xf && !exact then fInexact else 0)
+
+
+open Dec.C03GenCompare (decode_bitsOf decodeW_kind nzFin_decode) in
+/-- **the truncating / floor / ceiling skeleton is right** once its three parameters are:
+the range constants fit the mode (`RangeOK`, a finite check); `small` is the rounded value of an operand below one;
+`rem` is the rounded value after digit removal, given the half-up quotient and the fraction facts -/
+theorem skelTFC_spec (P : RangeP) (mode : Mode) (xf : Bool) (f : UInt32) (small : UInt64 → Except String (Int32 × UInt32))
+    (rem : UInt64 → U128 → U256 → Int32 → Except String (Int32 × UInt32)) (hP : RangeOK P mode)
+    (hsmall : ∀ (xs : UInt64) (s : Bool) (C D : Nat), (xs != 0) = s → 0 < C → C < D →
+      small xs = .ok (Int32.ofInt (sInt s (roundInt mode s 0 C D)), f ||| ixFlag xf false))
+    (hrem : ∀ (xs : UInt64) (s : Bool) (Cs : U128) (fs : U256) (ind : Int32) (x a r : Nat), (xs != 0) = s → ind.toInt = x →
+      1 ≤ x → x ≤ 34 → r < 10 ^ x → a ≤ 10 ^ 10 →
+      Cs.w0.toNat = (if r < 5 * 10 ^ (x - 1) then a else a + 1) → FracOK x r fs →
+      rem xs Cs fs ind = .ok (Int32.ofInt (sInt s (roundInt mode s a r (10 ^ x))), f ||| ixFlag xf (r == 0)))
+    (x : U128) :
+    skelTFC P f small rem x = specOut mode xf x f := by
+  obtain ⟨f1, f2, f3⟩ := frontK_spec x (INV f) (.ok (0, f)) (fun x_sign C1 q exp =>
+    rangeK P x_sign C1 q exp (INV f)
+      (if decide (q + exp ≤ (0 : Int32)) then small x_sign
+       else if decide (exp < (0 : Int32)) then removeK C1 (-exp) (fun Cstar fstar => rem x_sign Cstar fstar (-exp))
+       else if (exp == (0 : Int32)) then fin32 f (resOf x_sign C1.w0)
+       else posExpK x_sign C1 exp (fin32 f)))
+  unfold skelTFC specOut
+  rw [decode_bitsOf]
+  rcases decodeW_kind x.w1.toNat x.w0.toNat with ⟨hN, s, p, hd⟩ | ⟨hN, hI, hd⟩ | ⟨hI, hz, e, hd⟩ | ⟨hI, hS, hlt, hpos, hd⟩
+  · rw [f1 (by omega), hd]; rfl
+  · rw [f1 hI, hd]; rfl
+  · rw [f2 hI hz, hd, toIntD_fin, magOf_zero, exactOf_zero]
+    have : (0 : Nat) < if decide (x.w1.toNat / 2 ^ 63 % 2 = 1) = true then 2147483649 else 2147483648 := by split <;> omega
+    rw [if_pos this]
+    cases decide (x.w1.toNat / 2 ^ 63 % 2 = 1) <;> cases xf <;>
+      exact congrArg Except.ok (Prod.ext rfl (UInt32.or_zero).symm)
+  · -- finite non-zero
+    have hnz : nzFin x := ⟨hI, by unfold zeroP; omega⟩
+    obtain ⟨Q, E, hQ, hE, hk⟩ := f3 hnz
+    rw [hk, hd, toIntD_fin]
+    clear f1 f2 f3 hk
+    have hsw : ((x.w1 &&& c_MASK_SIGN) != 0) = decide (x.w1.toNat / 2 ^ 63 % 2 = 1) := sign_word x.w1
+    have hv : val128 (sigF x) = sigW x.w1.toNat x.w0.toNat := Dec.C03GenCompare.val128_sigF x
+    have hel := expW_lt x.w1.toNat
+    generalize x.w1 &&& c_MASK_SIGN = xs at *
+    generalize decide (x.w1.toNat / 2 ^ 63 % 2 = 1) = s at *
+    generalize hC1 : sigF x = C1 at *
+    generalize hCv : sigW x.w1.toNat x.w0.toNat = C at *
+    generalize hev : ((x.w1.toNat / 2 ^ 49 % 2 ^ 14 : Nat) : Int) - 6176 = e at *
+    have hE' : E.toInt = e := by rw [hE, ← hev]; rfl
+    have he1 : -10000 ≤ e := by rw [← hev]; omega
+    have he2 : e ≤ 10000 := by
+      rw [← hev]; have : x.w1.toNat / 2 ^ 49 % 2 ^ 14 < 2^14 := Nat.mod_lt _ (by decide); omega
+    rw [← hv] at hQ
+    rw [rangeK_sem P mode hP xs C1 Q E _ _ s e hsw (by omega) (by omega) hQ hE' he1 he2, hv]
+    rw [show (if s = true then 2147483649 else 2147483648) = bnd s from rfl]
+    by_cases hin : bnd s ≤ magOf mode s C e
+    · rw [if_pos hin, if_neg (show ¬ magOf mode s C e < bnd s by omega)]; rfl
+    rw [if_neg hin, if_pos (show magOf mode s C e < bnd s by omega)]
+    show _ = Except.ok (Int32.ofInt (sInt s (magOf mode s C e)), f ||| ixFlag xf (exactOf C e))
+    have hn := ndigits_pos hpos
+    obtain ⟨hlo, hhi⟩ := ndigits_spec hpos
+    have hn34 : ndigits C ≤ 34 := by rw [ndigits_le_iff hpos]; simpa [P34] using hlt
+    rw [hv] at hQ
+    have ht10 : (ndigits C : Int) + e ≤ 10 := by
+      apply Classical.byContradiction; intro hc
+      have := magOf_big mode s C e hpos (by omega)
+      unfold bnd at hin; split at hin <;> omega
+    have hsum : (Q + E).toInt = (ndigits C : Int) + e := by rw [i32_add _ _ (by omega) (by omega), hQ, hE']
+    by_cases c1 : (ndigits C : Int) + e ≤ 0
+    · -- below one
+      rw [if_pos (by rw [decide_eq_true_eq, Int32.le_iff_toInt_le, hsum]; exact c1)]
+      obtain ⟨hneg, ha, hr⟩ := tiny C e hpos c1
+      have hCD : C < 10 ^ (-e).toNat := by
+        have := Nat.mod_lt C (Nat.pow_pos (n := (-e).toNat) (by decide : 0 < 10)); omega
+      rw [hsmall xs s C (10 ^ (-e).toNat) hsw hpos hCD]
+      unfold magOf exactOf
+      rw [if_neg (by omega), if_neg (by omega), ha, hr]
+      have : (C == 0) = false := by rw [beq_eq_false_iff_ne]; omega
+      rw [this]
+    rw [if_neg (by rw [decide_eq_true_eq, Int32.le_iff_toInt_le, hsum]; exact c1)]
+    by_cases c2 : e < 0
+    · -- digits to remove
+      rw [if_pos (by rw [decide_eq_true_eq, Int32.lt_iff_toInt_lt, hE']; exact c2)]
+      have hx : (-E).toInt = (((-e).toNat : Nat) : Int) := by rw [i32_neg _ (by omega), hE']; omega
+      have hx1 : 1 ≤ (-e).toNat := by omega
+      have hx34 : (-e).toNat ≤ 34 := by omega
+      obtain ⟨Cs, fs, hk, hA, hF⟩ := removeK_spec C1 (-E) (fun Cstar fstar => rem xs Cstar fstar (-E)) (-e).toNat hx hx1 hx34
+        (by rw [hv]; simpa [P34] using hlt)
+      rw [hk, hv] at *
+      have ha10 : C / 10 ^ (-e).toNat ≤ 10 ^ 10 := by
+        apply Nat.le_of_lt
+        rw [Nat.div_lt_iff_lt_mul (Nat.pow_pos (by decide)), ← Nat.pow_add]
+        exact Nat.lt_of_lt_of_le hhi (Nat.pow_le_pow_right (by decide) (by omega))
+      have hAlt : (if C % 10 ^ (-e).toNat < 5 * 10 ^ ((-e).toNat - 1) then C / 10 ^ (-e).toNat else C / 10 ^ (-e).toNat + 1) < 2^64 := by
+        have : (10:Nat) ^ 10 + 1 < 2^64 := by decide
+        split <;> omega
+      rw [hrem xs s Cs fs (-E) (-e).toNat (C / 10 ^ (-e).toNat) (C % 10 ^ (-e).toNat) hsw hx hx1 hx34
+        (Nat.mod_lt _ (Nat.pow_pos (by decide))) ha10 (hA hAlt) hF]
+      unfold magOf exactOf
+      rw [if_neg (by omega), if_neg (by omega)]
+    rw [if_neg (by rw [decide_eq_true_eq, Int32.lt_iff_toInt_lt, hE']; exact c2)]
+    have hC10 : C < 10 ^ 10 := Nat.lt_of_lt_of_le hhi (Nat.pow_le_pow_right (by decide) (by omega))
+    have hw1 : C1.w1.toNat = 0 := val128_small C1 (by rw [hv]; exact Nat.lt_trans hC10 (by decide))
+    have hw0 : C1.w0.toNat = C := by rw [← hv]; unfold val128; rw [hw1, Nat.zero_mul, Nat.zero_add]
+    have hex : exactOf C e = true := by unfold exactOf; rw [if_pos (by omega)]
+    have hfl : f ||| ixFlag xf true = f := by
+      unfold ixFlag; cases xf <;> exact UInt32.or_zero
+    rw [hex, hfl]
+    by_cases c3 : e = 0
+    · rw [if_pos (by rw [beq_iff_eq, ← Int32.toInt_inj, hE', c3]; rfl)]
+      unfold fin32 magOf
+      rw [if_pos (by omega), c3, resOf_spec xs C1.w0 s C hsw hw0 (Nat.lt_trans hC10 (by decide))]
+      simp
+    · rw [if_neg (by rw [beq_iff_eq, ← Int32.toInt_inj, hE']; exact c3)]
+      have hm : C * 10 ^ e.toNat < 10 ^ 10 := by
+        have : C * 10 ^ e.toNat < 10 ^ ndigits C * 10 ^ e.toNat := Nat.mul_lt_mul_of_pos_right hhi (Nat.pow_pos (by decide))
+        rw [← Nat.pow_add] at this
+        exact Nat.lt_of_lt_of_le this (Nat.pow_le_pow_right (by decide) (by omega))
+      rw [posExpK_spec xs C1 E (fin32 f) s e.toNat hsw (by rw [hE']; omega) (by omega) (by omega)
+        (by rw [hw0]; exact Nat.lt_trans hm (by decide)), hw0]
+      unfold fin32 magOf
+      rw [if_pos (by omega)]
+
+
 end Dec.C06GenToInt
